@@ -177,7 +177,11 @@ def task_plumbing(pr, repo):
     def mkmol():
         confs = {}
         for cn, chains in (('1A', ['A', 'B']), ('1B', ['A'])):
-            atoms = [record('%s_%d' % (cn, i), A, element=e, chain_id=ch, type=t, name=e + str(i), bonded_atoms=[])
+            # the two conformations list the SAME atoms (labels, names, order) at DIFFERENT coordinates: each needs its own search
+            atoms = [record('%s_%d' % (cn, i), A, element=e, chain_id=ch, type=t, name=e + str(i), bonded_atoms=[],
+                            residue_label='%-3s%4d%2s' % (e + str(i), 10 + i, ch), res_num=10 + i, res_name='XXX', numb=i, icode=' ',
+                            x=R('%s_%d_x' % (cn, i)), y=R('%s_%d_y' % (cn, i)), z=R('%s_%d_z' % (cn, i)), cysteine_bridge=False,
+                            terminal=None, occ='1.00', beta='0.00')
                      for i, (e, ch, t) in enumerate([('S', 'A', 'atom'), ('S', 'B', 'atom'), ('H', 'A', 'atom'), ('C', 'L', 'hetatm'),
                                                      ('N', 'B', 'atom')])]
             confs[cn] = record('conf' + cn, repo.cls(CCn), atoms=atoms, chains=list(chains), groups=[])
